@@ -58,13 +58,8 @@ def apply_real(tree, wrap):
 
 def judge(chk, cases):
     bad = {}
-    CH = 20000
-    for off in range(0, len(cases), CH):
-        path = tlc.write_cases(cases[off:off + CH])
-        res = tlc.run_tlc("Simplify", env={"CASES": path}, timeout=1800)
-        chk.add_tlc(res)
-        for t in res.tagged("BAD"):
-            bad.setdefault(off + t[1] - 1, set()).add(t[2])
+    for t in tlc.judge_batch("Simplify", cases, chunk=5000, chk=chk)["BAD"]:
+        bad.setdefault(t[1], set()).add(t[2])
     for k in sorted(bad):
         c = cases[k]
         for clause in sorted(bad[k]):
